@@ -65,7 +65,7 @@ def fingerprint(defn, doc, packets):
     canon = reader.normalize(reader.read_xml(w))
     dec = [solo_result(defn, raw) for raw in packets]
     return hashlib.sha256(repr((sorted(canon["types"].items()), sorted(canon["params"].items()), sorted(canon["containers"].items()),
-                                dec)).encode()).hexdigest()
+                                canon.get("system"), getattr(defn, "space_system_name", None), dec)).encode()).hexdigest()
 
 
 _FORM = {"n": 0, "dir": None}
@@ -130,6 +130,9 @@ def make_doc(seed, i):
     rng = random.Random(f"C16/{seed}/doc/{i}")
     doc = gen.gen_document(rng, gen.Profile(max_depth=2, max_fanout=2, p_context=0.6, p_calibrated=0.6, legacy_float_spellings=True))
     packets = gen.gen_packets(rng, doc, 6)
+    if i % 4 == 1:
+        import dataclasses
+        doc = dataclasses.replace(doc, system_name=None)      # a SpaceSystem without a name attribute
     return doc, packets
 
 
